@@ -2,6 +2,7 @@
   C17 — container algebra and indexing.
 -/
 import YawVerif.Lemmas.Sums
+import YawVerif.Generated.Algebra
 import YawVerif.Model.Containers
 import YawVerif.Model.CorrFuncGlue
 
@@ -181,5 +182,47 @@ example : sliceSel 6 (some 1) (some (-1)) 3 = [1, 4] := by decide
 example : normIdx 3 (-1) = some 2 := by decide
 example : sliceRange 5 (some (-2)) none = (3, 5) := by decide
 example : sliceRange 5 (some 4) (some 2) = (4, 4) := by decide
+
+/-! ### The shape of the code the model abstracts (regenerated from the source on every run, `k_algebra`) -/
+
+/-- `==` looks at EVERY attribute that defines a container (binning incl. closed side, all arrays, the auto flag), and
+only the sampled-data containers — whose estimates may legitimately be NaN (empty bins) — compare with `equal_nan`, which is
+what makes their equality reflexive (`eq_refl`). -/
+theorem eq_fields :
+    Gen.eqFieldsPatchedCounts = ["binning", "counts", "auto"] ∧
+    Gen.eqNanPatchedCounts = [] ∧
+    Gen.eqFieldsPatchedSumWeights = ["binning", "sum_weights1", "sum_weights2", "auto"] ∧
+    Gen.eqNanPatchedSumWeights = [] ∧
+    Gen.eqFieldsNormalisedCounts = ["counts", "sum_weights"] ∧
+    Gen.eqNanNormalisedCounts = [] ∧
+    Gen.eqFieldsSampledData = ["binning", "data", "samples"] ∧
+    Gen.eqNanSampledData = ["data", "samples"] ∧
+    Gen.eqFieldsBinning = ["edges", "closed"] ∧
+    Gen.eqNanBinning = [] := by decide
+
+/-- the methods each container class defines itself: nothing overrides (or memoises) sampling, comparison, pickling or
+indexing beyond what the model describes -/
+theorem class_methods :
+    Gen.methodsPatchedCounts = ["__add__", "__eq__", "__init__", "__mul__", "__radd__", "_make_bin_slice", "_make_patch_slice", "from_hdf", "get_array", "num_patches", "set_patch_pair", "to_hdf", "zeros"] ∧
+    Gen.methodsPatchedSumWeights = ["__eq__", "__init__", "_make_bin_slice", "_make_patch_slice", "from_hdf", "get_array", "num_patches", "to_hdf"] ∧
+    Gen.methodsNormalisedCounts = ["__add__", "__eq__", "__init__", "__mul__", "__radd__", "_make_bin_slice", "_make_patch_slice", "auto", "binning", "from_hdf", "get_array", "is_compatible", "num_patches", "sample_patch_sum", "to_hdf"] ∧
+    Gen.methodsBinwisePatchwiseArray = ["__eq__", "__repr__", "auto", "get_array", "is_compatible", "sample_patch_sum"] ∧
+    Gen.methodsSampledData = ["__add__", "__eq__", "__getstate__", "__init__", "__repr__", "__setstate__", "__sub__", "_make_bin_slice", "correlation", "covariance", "error", "is_compatible", "num_samples", "plot", "plot_corr"] ∧
+    Gen.methodsBinning = ["__eq__", "__getitem__", "__getstate__", "__init__", "__iter__", "__len__", "__repr__", "__setstate__", "copy", "dz", "from_hdf", "left", "mids", "right", "to_hdf"] ∧
+    Gen.methodsCorrFunc = ["__add__", "__eq__", "__init__", "__mul__", "__repr__", "_make_bin_slice", "_make_patch_slice", "auto", "binning", "from_file", "from_hdf", "is_compatible", "num_patches", "sample", "to_dict", "to_file", "to_hdf"] := by decide
+
+/-- compatibility is decided on the binning (`Binning.__eq__`: edges and closed side) AND the number of patches, by both
+base classes; `+` on counts requires it and adds the arrays; `*` accepts scalars only and scales the counts; normalised
+counts add only under equal weight sums and scale only their counts (`add_requires_compat`, `mul_counts`, `nc_scale`). -/
+theorem algebra_flags :
+    Gen.binwiseCompatOnBinning = true ∧ Gen.patchwiseCompatOnPatches = true ∧ Gen.arrayCompatBoth = true ∧
+    Gen.countsAddChecked = true ∧ Gen.countsMulScalar = true ∧ Gen.normAddEqualWeights = true ∧
+    Gen.normMulCountsOnly = true := by decide
+
+theorem glue_pinned :
+    Gen.pinCorrFuncAlgebra = "4c224587b1b5c82b" ∧
+    Gen.pinSampledAlgebra = "5f69cd479b519647" ∧
+    Gen.pinSlices = "9219b8533b1b3cad" ∧
+    Gen.pinBinningSelect = "1ce535c7babfe3f2" := by decide
 
 end Yaw.C17
